@@ -1211,3 +1211,60 @@ def check_iterators(chk, prog, units=UNITS):
                    detail="%s answers %s: exhaustion is reported at the wrong time (exactly after count elements is required)" % (has.name, why),
                    proof="the answer follows from the cursor test")
     return n
+
+
+def check_dup_backlinks(chk, prog, unit="dlinked_list.c", only=None, rule="L7"):
+    """L7: in the doubly linked dup functions every node the copy acquires after the head (X->next = item_dup(..)) has its
+    prev link stored before the function returns - as (X->next)->prev while it is still reached through X, or as Y->prev after a
+    cursor Y has moved onto it.  A missing back link only shows when the copy is walked from its tail."""
+    u = prog.units[unit]
+    n = 0
+    for f in u.functions.values():
+        if not re.search(r"_dup$", f.name) or "_item_" in f.name or "iterator" in f.name or (only is not None and f.name not in only):
+            continue
+        cfg = nullness.prepared_cfg(f, NORETURN)
+        creations = []
+
+        def key_of(e):
+            return canon(f, X.strip(e))
+
+        def transfer(state, x, blk):
+            if x.get("k") == "assign" and x.get("op") == "=":
+                l, r = X.strip(x["ch"][0]), X.strip(x["ch"][1])
+                st = set(state)
+                # creation through a next link
+                if l.get("k") == "member" and l.get("n") == "next" and r is not None and r.get("k") == "call" and re.search(r"_item_dup$|_item_new$", X.callee_name(r) or ""):
+                    st.add(("pending", key_of(l)))
+                    creations.append(x)
+                    return frozenset(st)
+                # back link stored
+                if l.get("k") == "member" and l.get("n") == "prev":
+                    k_ = key_of(l["ch"][0])
+                    st = {t for t in st if not (t[0] == "pending" and t[1] == k_)}
+                    return frozenset(st)
+                # a cursor moves:  Y = E  renames pending(E) to pending(Y) (and what was pending under Y->.. is out of reach)
+                if l.get("k") == "ref" and l.get("rk") == "local":
+                    ky, ke = key_of(l), key_of(r) if r is not None else None
+                    st2 = set()
+                    for t in st:
+                        if t[0] == "pending" and t[1] == ke:
+                            st2.add(("pending", ky))
+                        else:
+                            st2.add(t)
+                    return frozenset(st2)
+            return state
+        bad = []
+
+        def visit(state, x, blk):
+            if x.get("k") == "return" and x.get("val") is not None and not X.is_null_const(x["val"]):
+                if any(t[0] == "pending" for t in state):
+                    bad.append(x)
+        flow.forward(cfg, frozenset(), transfer, join=lambda a, b: a | b, visit=visit)
+        if not creations:
+            continue
+        n += 1
+        chk.ob(rule, f.name, "copied-nodes-back-linked", not bad, loc=f.loc(bad[0]) if bad else f.loc(f.body),
+               detail="%s returns a copy in which a node it created through a next link never had its prev link stored (the last node of "
+                      "the chain, typically): walking the copy backwards from its tail stops there" % f.name,
+               proof="every node created through X->next has a store to its prev before the return")
+    return n
